@@ -43,7 +43,7 @@ InitM == [rows |-> << >>, frames |-> << >>, call |-> None, ret |-> None, rolled 
           pieces |-> << >>, evseen |-> {}, window |-> None,
           cbDue |-> FALSE, cbSeen |-> << >>, cbIn |-> -1, cbDtm |-> -1, cbDtPending |-> FALSE,
           nfevBase |-> 0, inReset |-> FALSE, y0 |-> 0, dtm0 |-> -1, lastExc |-> "none",
-          opTerminated |-> FALSE, dtmPrev |-> -1]
+          opTerminated |-> FALSE, dtmPrev |-> -1, opEv |-> << >>, opDir |-> 0]
 
 (***************************************************************************)
 (* Clauses evaluated on every event that carries a snapshot                 *)
@@ -51,6 +51,7 @@ InitM == [rows |-> << >>, frames |-> << >>, call |-> None, ret |-> None, rolled 
 Always(m, e) ==
     IF "s" \in DOMAIN e THEN
         (IF m.inReset \/ e.s.nfev = e.s.rhsDone - m.nfevBase THEN {} ELSE {"C20.NfevCountsCompletedCalls"})
+        \cup (IF e.s.njev = e.s.jacReq THEN {} ELSE {"C20.NjevCountsJacobianRequests"})
         \cup (IF e.s.counter < e.s.buf THEN {} ELSE {"C03.BufferNeverOverrun"})
         \cup (IF Len(m.rows) = 0 \/ m.inReset \/ e.e \in {"Counter"} \/ e.s.counter + 1 = Len(m.rows) THEN {} ELSE {"C03.CounterTracksRows"})
     ELSE {}
@@ -64,7 +65,8 @@ UpdNew(m, e, tr) == [m EXCEPT !.rows = <<[t |-> e.s.tc, y |-> e.s.yc]>>, !.y0 = 
 UpdIntegrateCall(m, e, tr) ==
     [m EXCEPT !.frames = Append(@, [target |-> e.target, finite |-> e.finite, dir |-> e.dir, depth |-> e.depth,
                                     c0 |-> e.s.counter, nfev0 |-> e.s.nfev, ncb |-> e.ncb, nevents |-> e.nevents,
-                                    atTarget |-> e.atTarget, steps |-> 0, calls |-> 0, dtmCall |-> -1, terminated |-> FALSE]),
+                                    atTarget |-> e.atTarget, steps |-> 0, calls |-> 0, dtmCall |-> -1, terminated |-> FALSE, term |-> e.term]),
+              !.opDir = IF e.depth = 1 THEN e.dir ELSE @,
               !.cbDue = IF e.depth = 1 THEN FALSE ELSE @,
               !.cbSeen = IF e.depth = 1 THEN << >> ELSE @,
               !.lastExc = "none"]
@@ -189,7 +191,9 @@ ChkEventRec(m, e, tr) ==
     \cup (IF e.n = e.s.nev THEN {} ELSE {"C07.EventListAppendOnly"})
 UpdEventRec(m, e, tr) ==
     IF IsNone(m.window) THEN m ELSE
-    [m EXCEPT !.evseen = @ \cup {<<e.ev, e.t>>}, !.window.recs = Append(@, e.t)]
+    [m EXCEPT !.evseen = @ \cup {<<e.ev, e.t>>}, !.window.recs = Append(@, e.t),
+              !.opEv = Append(@, [t |-> e.t, ev |-> e.ev,
+                                  term |-> IF HasFrame(m) /\ e.ev + 1 \in 1..Len(m.frames[1].term) THEN m.frames[1].term[e.ev + 1] ELSE FALSE])]
 
 (* callbacks *)
 ChkCallback(m, e, tr) ==
@@ -254,6 +258,9 @@ ChkResetRet(m, e, tr) ==
 ChkApiRet(m, e, tr) ==
     (IF e.grid = [k \in 1..Len(m.rows) |-> m.rows[k].t] /\ e.ygrid = [k \in 1..Len(m.rows) |-> m.rows[k].y]
      THEN {} ELSE {"C03.RecordedRowsAreTheCommittedSteps", "C12.RecordedRowsAreTheCommittedSteps", "C13.RecordedRowsAreTheCommittedSteps"})
+    \cup (IF e.err = "BudgetExceeded" THEN {"C03.RunTerminates", "C04.RunTerminates", "C05.RunTerminates", "C09.RunTerminates",
+                                             "C12.RunTerminates", "C13.RunTerminates", "C20.RunTerminates",
+                                             "C06.RunTerminates", "C07.RunTerminates", "C08.RunTerminates"} ELSE {})
     \cup (IF e.paired /\ e.lenT = Len(e.grid) THEN {} ELSE {"C03.TimesAndStatesPaired", "C12.TimesAndStatesPaired"})
     \cup (IF e.finite THEN {} ELSE {"C03.StoredValuesFinite", "C12.StoredValuesFinite", "C05.NoInaccurateStateRecorded"})
     \cup (IF e.op = "integrate" /\ e.k \in SeqRange(tr.expectFail) /\ e.err = "none" THEN {"C05.ErrorRaisedWhenTolerancesCannotBeMet", "C12.ErrorRaisedWhenTolerancesCannotBeMet"} ELSE {})
@@ -279,11 +286,24 @@ ChkApiRet(m, e, tr) ==
     \cup (IF e.op = "integrate" /\ e.err = "none" /\ m.opTerminated /\ Len(e.evT) > 0
              /\ Last(e.grid) # Last(e.evT) /\ e.lastEvUlps > EndUnits
           THEN {"C09.LastRowIsTheEvent"} ELSE {})
+    \cup (IF e.op = "integrate" /\ e.err = "none" /\ m.opTerminated
+             /\ ~(Len(m.opEv) > 0 /\ Last(m.opEv).term /\ \A k \in 1..(Len(m.opEv) - 1) : ~m.opEv[k].term)
+          THEN {"C09.ExactlyTheEarliestTerminalEventReported"} ELSE {})
+    \cup (IF e.op = "integrate" /\ e.err = "none" /\ m.opTerminated
+             /\ (\E k \in 1..Len(m.opEv) : Beyond(m.opDir, Last(e.grid), m.opEv[k].t) /\ ~(k = Len(m.opEv) /\ e.lastEvUlps <= EndUnits))
+          THEN {"C09.NoEventBeyondTheStop"} ELSE {})
+    \cup (IF e.op = "integrate" /\ e.err = "none"
+          THEN LET terms == {k \in 1..Len(e.truthT) : e.truthTerm[k] /\ e.truthDirOk[k]} IN
+               IF terms = {} THEN {}
+               ELSE LET first == CHOOSE k \in terms : \A j \in terms : ~Beyond(m.opDir, e.truthT[j], e.truthT[k]) \/ j = k IN
+                    (IF m.opTerminated THEN {} ELSE {"C09.TerminalEventStopsTheRun", "C08.TerminalCrossingNotMissed"})
+                    \cup (IF m.opTerminated /\ e.truthGap[first] > EndUnits THEN {"C09.StopsAtTheEarliestTerminalRoot"} ELSE {})
+          ELSE {})
     \cup (IF e.op = "reset" /\ ~(e.grid = <<tr.t0>> /\ e.ygrid = <<m.y0>> /\ e.nsol = 0 /\ e.evT = << >> /\ e.status = "notrun"
                                  /\ e.nfev = 0 /\ e.dtm = m.dtm0 /\ e.lenT = 1)
           THEN {"C13.ResetRestoresInitialState"} ELSE {})
 UpdApiRet(m, e, tr) == m
-UpdApi(m, e, tr) == [m EXCEPT !.opTerminated = FALSE]
+UpdApi(m, e, tr) == [m EXCEPT !.opTerminated = FALSE, !.opEv = << >>, !.opDir = 0]
 
 Chk(m, e, tr) ==
     Always(m, e) \cup
@@ -354,7 +374,7 @@ NextTrace ==
     /\ ti <= Len(Traces)
     /\ l = Len(Traces[ti].events) + 1
     /\ ti' = ti + 1 /\ l' = 1 /\ m' = InitM
-    /\ bad' = bad \cup (IF Len(m.frames) = 0 THEN {} ELSE {[id |-> Traces[ti].id, clause |-> "C03.EveryCallReturns", at |-> l, ev |-> "end"]})
+    /\ bad' = bad \cup (IF Len(m.frames) = 0 \/ (\E b \in bad : b.id = Traces[ti].id /\ b.clause = "C03.RunTerminates") THEN {} ELSE {[id |-> Traces[ti].id, clause |-> "C03.EveryCallReturns", at |-> l, ev |-> "end"]})
 
 Next == Consume \/ NextTrace
 Spec == Init /\ [][Next]_vars
